@@ -419,7 +419,7 @@ PPL::Grid::max_min(const Linear_Expression& expr,
       return false;
     }
     if (space_dim == 0) {
-      ext_n = 0;
+      ext_n = expr.inhomogeneous_term();
       ext_d = 1;
       included = true;
       if (point != nullptr) {
